@@ -86,6 +86,15 @@ CLAIMED["C35"] = dict(
         "three clauses of deleteLocation on which all solvers time out (listed in the contract file). " + TRUST,
    design="DESIGN.md §4 C35")
 
+CLAIMED["C07"] = dict(
+   text="Proof-level kernel under both index offset widths (build tags verif and verif,5BytesOffset): SearchNeedleFromSortedIndex over a ghost .ecx file "
+        "(binary search with an inductive invariant): not-found is reported only when no entry has the key, a found entry invokes the callback exactly "
+        "once with that entry's byte offset; MarkNeedleDeleted overwrites exactly the 4 size bytes of the entry at the offset it is given with the "
+        "tombstone and leaves every other byte of the file unchanged; DeleteNeedleFromEcx journals (seek to end, write) exactly when the entry was marked.",
+   note="File contents are a built-in ghost model (ReadAt/WriteAt per io.ReaderAt/io.WriterAt); the journal replay RebuildEcxFile, WriteIdxFileFromEcIndex and "
+        "SortedFileNeedleMap.Delete reuse the same search and are not separately specified. " + TRUST,
+   design="DESIGN.md §4 C07")
+
 NA = {
  "C03":"crash-point property over byte-level truncation of two persistent files; no per-function contract within reach decides it (DESIGN §4 C03)",
  "C10":"needs inductive tree predicates and cardinality reasoning over interface-typed nodes in pointer maps with randomised picking (DESIGN §4 C10)",
